@@ -25,7 +25,7 @@ WORDS = None
 def wordlist():
     global WORDS
     if WORDS is None:
-        WORDS = open("/repo/src/mnemonic/wordlist/english.txt").read().split()
+        WORDS = open(os.path.join(os.path.dirname(os.path.dirname(os.path.dirname(os.path.abspath(__file__)))), "data", "bip39-english.txt")).read().split()
     return WORDS
 
 
